@@ -39,6 +39,11 @@ CLAIMED["C16"] = dict(
     text="Ready::Yes is constructed only when pending_count == min(records_per_batch, total - first_record_in_batch), after the batch left the deque, and owns the batch (FnOnce validator => validated at most once); the validating caller publishes result.is_ok() of the settled validation on the batch's own channel and returns that result; waiters read the verdict only after changed() settled and return Ok only if it is true; misuse paths (record twice, offset beyond batch, batch already validated, record past total) diverge or return an error before any state update. Decides wiring and guards, not interleavings of concurrent callers.",
     ref="§3 C16")
 
+CLAIMED["C02"] = dict(
+    technique="static analysis: acquire/release pairing (validator created => validated) over async MIR CFGs with await settlement points and `?` edges, call-graph summary (ValidatesRecord), dominator ordering of validation vs. every opening of secret data, verdict-guard polarity (no Ok reachable from a mismatch edge)",
+    text="Decides that the malicious-security checks cannot be skipped: every DZKP/MAC validator created in protocol code is validated on every success path (or moved into validated_seq_join / a per-record validating callee); every opening of secret data is ordered after the validation covering it or is a table-listed part of a check; shuffled rows are released only after verify_shuffle succeeded on the same table; each check's comparison gates success (hash comparisons, two-copy reveal equality, MAC T=u-wr zero test, padding-count equality, DZKP zero differences). Does not decide the cryptographic soundness of those checks nor the end-to-end 'accepted => correct' behaviour.",
+    ref="§3 C02")
+
 NOT_APPLICABLE = {
     "C01": "end-to-end numerical equality of the MPC histogram with a plaintext reference over all inputs/shardings: no clause of it is visible in code shape; static analysis in reach cannot bound it (DESIGN.md §4)",
     "C07": "functional correctness of arithmetic/Boolean circuits over all operand values is numerical; would need symbolic execution of the circuits, a different technique family (DESIGN.md §4)",
